@@ -98,8 +98,10 @@ Theorem C14_jobs_keyed_serial : forall (R E : Type) nw (outs : list (outcome R E
   summaries (length outs) (good (jtaken s)) = map Some outs /\ sorted_results (good (jtaken s)) = enum outs.
 Proof. exact @jobs_keyed_serial. Qed.
 
-(* FULL: the consumer loops of GridSearch._fit / Sensitivity.run ([consume]: store until the first yielded
-   exception): if a job fails, a finished call lets the consumer meet an exception of one of the jobs *)
+(* FULL: the consumer loops of GridSearch._fit (since 74ff428) and Sensitivity.run ([consume]: store every yielded
+   result, re-raise the first yielded exception): if a job fails, what the caller of a finished parallel run is told
+   is the exception of one of the failing jobs -- as with number_of_cores = 1 (before 74ff428 the grid search
+   reported an AttributeError of ResultBuilder.add instead; pinned by obligation regression:grid-parallel-failing-cell) *)
 Theorem C14_callers_exception : forall (R E : Type) nw (jobs : list (nat * outcome R E)) fixed sched s,
   s = jrun fixed sched (jstart nw jobs) -> jdone s = true -> (exists it, In it jobs /\ is_exc it = true) ->
   exists e k, fst (consume (jtaken s) []) = Some e /\ In (k, Exc e) jobs.
@@ -119,39 +121,39 @@ Proof. exact @init_serial. Qed.
 (* ================= D. record of the code before the repairs (C14_MAP_FIXED=0 models) ================= *)
 
 (* polling map: every sequence of batches hands back its own batch up to the ORDER of the yielded values *)
-Theorem C14_old_map_batches_no_residue : forall (R E : Type) n (bs : list (list (outcome R E) * list action)) (p0 : pool R E),
+Theorem C14_map_batches_legacy : forall (R E : Type) n (bs : list (list (outcome R E) * list action)) (p0 : pool R E),
   0 < n -> wf n p0 -> clean p0 ->
   Forall (fun o => bo_done o = true) (batches false bs p0) ->
   Forall2 (fun b o => batch_good (fst b) o) bs (batches false bs p0).
 Proof. exact @map_batches. Qed.
 
-Theorem C14_old_map_complete_schedule : forall (R E : Type) n (outs : list (outcome R E)) (p0 : pool R E) sched,
+Theorem C14_map_complete_schedule_legacy : forall (R E : Type) n (outs : list (outcome R E)) (p0 : pool R E) sched,
   0 < n -> wf n p0 -> clean p0 ->
   concat (pend (fst (run sched (start (enum outs) p0)))) = [] ->
   bo_done (snd (batch false outs sched p0)) = true /\ batch_good outs (snd (batch false outs sched p0)).
 Proof. exact @batch_complete_schedule. Qed.
 
 (* PARTIAL: order held per process only *)
-Theorem C14_old_map_worker_order_partial : forall (R E : Type) n (jobs : list (nat * outcome R E)) (p0 : pool R E) sched p m w,
+Theorem C14_map_worker_order_legacy_partial : forall (R E : Type) n (jobs : list (nat * outcome R E)) (p0 : pool R E) sched p m w,
   0 < n -> wf n p0 -> clean p0 -> run sched (start jobs p0) = (p, m) -> done m = true -> w < n ->
   filterw n w (taken m) = filterw n w jobs.
 Proof. exact @map_worker_order. Qed.
 
 (* REFUTED (finding sneaky-map-completion-order, fixed by c80ac95): positional order *)
-Theorem C14_old_map_order_refuted :
+Theorem C14_map_order_legacy_refuted :
   exists (outs : list (outcome nat nat)) (sched : list action) p m,
     run sched (start (enum outs) (fresh 2)) = (p, m) /\ done m = true /\
     yields (taken m) <> yields (enum outs).
 Proof. exact map_order_refuted. Qed.
 
-Theorem C14_old_init_pairs_refuted :
+Theorem C14_init_pairs_legacy_refuted :
   exists (stream : list (nat * outcome (option nat) nat)) scheds res,
     samples_from_model false 2 2 stream scheds = IOk res /\
     ~ (forall x v, In (x, v) res -> In (x, Ok (Some v)) stream).
 Proof. exact init_pairs_refuted. Qed.
 
 (* REFUTED (finding run-jobs-startup-race, fixed by 67a753d): termination with the `empty()` worker loop *)
-Theorem C14_old_jobs_termination_refuted :
+Theorem C14_jobs_termination_legacy_refuted :
   exists (nw : nat) (outs : list (outcome nat nat)) (sched : list jaction),
     forall k, let s := jrun false (sched ++ repeat JP k) (jstart nw (enum outs)) in
               jdone s = false /\ jtaken s = [] /\ jq s = enum outs.
